@@ -69,7 +69,7 @@ def prove_clauses(ex, label, clauses, env=None):
 
 def assume_clauses(ex, clauses, env=None):
     for lab, expr in clauses.items():
-        ex.path.assume(ex.spec_bool(expr, env))
+        ex.path.assume(ex.spec_bool(expr, env), tag=lab)
 
 
 def apply_havoc(ex, spec, body_nodes, extra_names=()):
@@ -265,10 +265,12 @@ def run_yield(ex, node):
     inv = spec.get('inv', {})
     prove_clauses(ex, 'yield.inv', inv)
     from .contracts import havoc_modifies
+    before = ex.path.snapshot()
     havoc_modifies(ex, spec.get('env_modifies', []), ex)
     for fn in spec.get('env_steps', []):
         fn(ex)
-    assume_clauses(ex, inv)
+    # what the environment may do between two resumptions: old(...) in these
+    # clauses is the state at the yield
     for lab, expr in spec.get('env_assume', {}).items():
-        ex.path.assume(ex.spec_bool(expr))
+        ex.path.assume(ex.spec_bool(expr, None, before), tag=lab)
     return SNone()
